@@ -1023,6 +1023,11 @@ impl Checker<'_> {
                     while i < w.len() {
                         let e = &w[i];
                         if model::is_sys(&e.key) {
+                            if e.del && e.key.starts_with("$SYS/locks/") && lock_released_by_next_session_end(w, i, cid) {
+                                // the server's own bookkeeping at the beginning of the next
+                                // session end (unlock_all runs first there): not this grave good's
+                                break;
+                            }
                             if e.del && model::matches(&pat, &e.key) && model::protected_from(&e.key, cid) {
                                 if pat.starts_with("$SYS") {
                                     self.violate(
@@ -1824,4 +1829,30 @@ impl Checker<'_> {
             }
         }
     }
+}
+
+/// `w[i]` deletes a `$SYS/locks/<key>` entry whose value names the holder. True if that holder is
+/// another client whose own `$SYS/clients/<id>/…` entries are the next client entries to go, i.e.
+/// the deletion is the first step of the holder's session end (the server releases the locks of
+/// a session before anything else). A deletion caused by a grave good and the server's own one
+/// are the same single event at the same position in that case, so it proves nothing either way.
+fn lock_released_by_next_session_end(w: &[WEv], i: usize, cid: &str) -> bool {
+    let Some(holder) = w[i].value.as_str() else { return false };
+    if holder == cid {
+        return false;
+    }
+    for e in &w[i + 1..] {
+        if e.key.starts_with("$SYS/locks/") && e.del {
+            continue;
+        }
+        if e.key == "$SYS/clients" {
+            continue;
+        }
+        if let Some(rest) = e.key.strip_prefix("$SYS/clients/") {
+            let id = rest.split('/').next().unwrap_or("");
+            return id == holder && e.del;
+        }
+        return false;
+    }
+    false
 }
